@@ -145,6 +145,7 @@ InnerChoice == ChoiceOf(Sc("int", <<>>), Sc("octs", <<>>), <<>>)
 InnerChoiceT == ChoiceOf(Sc("int", <<Ctx(0)>>), Sc("null", <<>>), <<CtxE(9)>>)
 InnerOf == [k |-> "seqof", tags |-> <<>>, of |-> Sc("int", <<>>)]
 InnerSetOf == [k |-> "setof", tags |-> <<>>, of |-> Sc("octs", <<>>)]
+Route == [k |-> "seq", tags |-> <<>>, comps |-> << Comp("x", Sc("int", <<>>), "req"), Comp("y", Sc("bool", <<>>), "req") >>]
 Deep ==
   { [k |-> "seqof", tags |-> <<>>, of |-> InnerSeq],
     [k |-> "setof", tags |-> <<>>, of |-> InnerChoice],
@@ -179,7 +180,14 @@ Deep ==
                                               CompD("flag", Sc("bool", <<>>), [b |-> FALSE]),
                                               CompD("retries", Sc("int", <<Ctx(0)>>), I(1)), Comp("data", Sc("octs", <<>>), "req") >>],
     [k |-> "setof", tags |-> <<>>, of |-> Sc("int", <<>>)],
-    [k |-> "setof", tags |-> <<>>, of |-> InnerOf] }
+    [k |-> "setof", tags |-> <<>>, of |-> InnerOf],
+    \* DEFAULT component of a constructed type with constructed members (cloned out of the schema on decode)
+    [k |-> "seq", tags |-> <<>>, comps |-> << Comp("id", Sc("bool", <<>>), "req"),
+          CompD("routes", [k |-> "seqof", tags |-> <<>>, of |-> Route],
+                [es |-> << [cs |-> << [p |-> TRUE, v |-> I(1)], [p |-> TRUE, v |-> [b |-> TRUE]] >>] >>]) >>],
+    \* CHOICE between two multi-octet identifiers with the same leading octet
+    [k |-> "choice", tags |-> <<>>, alts |-> << [name |-> "ping", t |-> Sc("int", <<Ctx(31)>>)], [name |-> "pong", t |-> Sc("int", <<Ctx(32)>>)],
+                                               [name |-> "pang", t |-> Sc("int", <<CtxE(33)>>)] >>] }
 
 Types ==
   (IF "scalar" \in UShapes THEN ScalarTypes ELSE {}) \cup
